@@ -78,6 +78,10 @@ def _expand(job):
                 viols.append(v.to_json())
                 counts['transitions'] = counts.get('transitions', 0) + 1
                 continue
+            except common.Undetermined:
+                counts['transitions'] = counts.get('transitions', 0) + 1
+                counts['undetermined_leaves'] = counts.get('undetermined_leaves', 0) + 1
+                continue
             counts['transitions'] = counts.get('transitions', 0) + 1
             name = 'op:' + str(op[0])
             counts[name] = counts.get(name, 0) + 1
